@@ -587,6 +587,21 @@ func (r *runner) mainStream(nprog int) int {
 			svc("Svc", nil, fnVoid("f", []*idlgen.Field{fd(1, "p", i32), fd(2, "P", i32), fd(3, "err", i32), fd(4, "type", i32), fd(5, "_type", i32), fd(6, "ctx", i32)}, nil),
 				&idlgen.Function{Name: "g", Ret: i32, Args: []*idlgen.Field{fd(1, "r", i32), fd(2, "_result", i32), fd(3, "R", i32)}}),
 			svc("Svc2", nil, fnVoid("f", nil, nil)))}}, "go", []string{"gen_setter", "gen_deep_equal", "keep_unknown_fields"}, true, "fixed-renames"})
+	// tiny fixed programs, one per scope, in which the RENAMED form of a colliding name is declared first
+	// (`x_` then `x`): collision renaming has to probe again (namespace.Add), whatever the naming style
+	fix := func(tag string, opts []string, defs ...interface{}) {
+		plan = append(plan, plannedUnit{&Program{Files: []*File{mkFile("a.thrift", "pa", none, defs...)}}, "go", opts, true, tag})
+	}
+	fix("fixed-pair-fields", nil, strct("Stats", fd(1, "read_", i32), fd(2, "read", i32), fd(3, "total_", i32), fd(4, "total", i32), fd(5, "Total", i32)))
+	fix("fixed-pair-params", []string{"naming_style=golint"}, svc("Svc", nil,
+		&idlgen.Function{Name: "f", Ret: i32, Args: []*idlgen.Field{fd(1, "r_", i32), fd(2, "r", i32), fd(3, "err_", i32), fd(4, "err", i32)}}))
+	fix("fixed-pair-funcs", []string{"naming_style=apache"}, svc("Svc", nil, fnVoid("get_", nil, nil), fnVoid("get", nil, nil), fnVoid("Get", nil, nil)))
+	fix("fixed-pair-globals", nil, strct("item_"), strct("item"), strct("Item"), enum("kind_", "A"), enum("kind", "A"), enum("Kind", "A"))
+	fix("fixed-set-deep-equal", []string{"gen_deep_equal"}, strct("I", fd(1, "x", i32)), strct("S", fd(1, "s", &Type{Kind: idlgen.Set, Elem: i32}), fd(2, "t", &Type{Kind: idlgen.Set, Elem: tRef(0, "I")})))
+	plan = append(plan, plannedUnit{&Program{Files: []*File{
+		mkFile("a.thrift", "pa", []int{1, 2}, strct("S", fd(1, "x", tRef(1, "T")), fd(2, "y", tRef(2, "T")))),
+		mkFile("b.thrift", "x.fmt0", none, strct("T")),
+		mkFile("c.thrift", "y.fmt", none, strct("T"))}}, "go", nil, true, "fixed-pair-imports"})
 	units := make([]batch.Unit, len(plan))
 	for i, pu := range plan {
 		units[i] = batch.Unit{Prog: pu.prog, Backend: pu.backend, Options: pu.opts, Recurse: pu.recurse, Tag: pu.tag}
